@@ -70,6 +70,18 @@ def gen_cases(tier, seed):
         orders = [list(ALL[int(rng.integers(len(ALL)))]) for _ in range(2)] + [[0, 0, 0], [1, 0, 1]]
         cases.append({"shells": shells, "orders": orders, "origin": [float(v) for v in np.array(shells[0]["c"]) + rng.normal(size=3) * [0.0, 0.01, 1.0][k % 3]], "transform": None, "shift": False,
                       "classes": classes + ["origin:" + ["center", "near", "off"][k % 3], "T:none", "ntriples:4"] + ["o:%d%d%d" % tuple(o) for o in orders], "cost": 60})
+    # one atom: shells of different angular momentum on exactly one centre, the moment origin exactly on it, low orders (the
+    # Cartesian d, f, g functions contain the lower harmonics, so <s|d_xx>, <s|x|f_xxx>, <p|x|d>... do not vanish)
+    for k in range(10 if tier == "quick" else 100):
+        rng = bases.rng_for("C07", seed, tier, "one-atom", k)
+        lo, hi = [(0, 2), (1, 3), (0, 3), (0, 4), (2, 4), (1, 2), (1, 4), (0, 1), (2, 3), (0, 2)][k % 10]
+        c0 = rng.normal(size=3) * [0.0, 1.0][k % 2]
+        sh = [bases.rand_shell(rng, l, center=c0, emin=0.2, emax=5.0, Kmax=2, Mmax=2, t=t) for l, t in zip((lo, hi), [("c", "c"), ("p", "c"), ("c", "p"), ("c", "c")][k % 4])]
+        for s_ in sh:
+            s_.pop("_cls")
+        orders = [[0, 0, 0], [1, 0, 0], [0, 1, 1], [0, 0, 2], [1, 1, 1]] + [list(ALL[int(rng.integers(len(ALL)))])]
+        cases.append({"shells": sh if k % 3 else sh[::-1], "orders": orders, "origin": [float(v) for v in c0], "transform": None, "shift": False,
+                      "classes": ["one-atom+origin-on-it", "l:%d+%d" % (lo, hi), "types:" + sh[0]["t"] + sh[1]["t"], "T:none", "ntriples:6"] + ["o:%d%d%d" % tuple(o) for o in orders], "cost": 60})
     # a diffuse low-l shell and a tight high-l shell about one bohr apart (exponent ratio 1e3..1e6), in both list orders: two-centre
     # recursions that run through the tight centre lose digits to cancellation there
     for k in range(12 if tier == "quick" else 96):
